@@ -76,7 +76,7 @@ def generate_with_relative_time_(
                 return
 
             if has_result:
-                assert time
+                assert time is not None
                 mad.disposable = scheduler.schedule_relative(time, action)
             else:
                 observer.on_completed()
